@@ -623,15 +623,19 @@ class Model():
             left_field_name, right_field_name = \
                 self.get_association_field_names(association)
 
+            # Note: in reflexive associations the asset can be present in
+            # both fields, in which case both directions have to be checked.
+            opposite_field_names = []
             if asset in getattr(association, left_field_name):
-                opposite_field_name = right_field_name
-            else:
-                opposite_field_name = left_field_name
+                opposite_field_names.append(right_field_name)
+            if asset in getattr(association, right_field_name):
+                opposite_field_names.append(left_field_name)
 
-            if opposite_field_name == field_name:
-                associated_assets.extend(
-                    getattr(association, opposite_field_name)
-                )
+            for opposite_field_name in opposite_field_names:
+                if opposite_field_name == field_name:
+                    associated_assets.extend(
+                        getattr(association, opposite_field_name)
+                    )
 
         return associated_assets
 
